@@ -44,11 +44,32 @@ def _cf(v):
 
 
 def _build(case):
-    t = None
+    ns = case.get("nsteps", 1)
+    if ns == 1:
+        t = None
+        for a, b in case["ab"]:
+            s = models.Scale(a) | models.Shift(b)
+            t = s if t is None else t & s
+        return gw.WCS([("detector", t), ("world", None)])
+    # the same arithmetic spread over several pipeline steps (the box lives on the first one): scale | shift [| duplicate the last axis]
+    sc = sh = None
     for a, b in case["ab"]:
-        s = models.Scale(a) | models.Shift(b)
-        t = s if t is None else t & s
-    return gw.WCS([("detector", t), ("world", None)])
+        sc = models.Scale(a) if sc is None else sc & models.Scale(a)
+        sh = models.Shift(b) if sh is None else sh & models.Shift(b)
+    n = len(case["ab"])
+    pipe = [("detector", sc), ("scaled", sh)]
+    if ns == 3 or case.get("dup"):
+        pipe.append(("shifted", models.Mapping(tuple(range(n)) + ((n - 1,) if case.get("dup") else ()))))
+    pipe.append(("world", None))
+    return gw.WCS(pipe)
+
+
+def _undup(case, r):
+    """drop the duplicated last output (after checking that it is a duplicate)"""
+    if not (case.get("dup") and case.get("nsteps", 1) > 1):
+        return r, True
+    same = bool(np.array_equal(np.asarray(r[-1]), np.asarray(r[-2]), equal_nan=True))
+    return tuple(r[:-1]), same
 
 
 def _box_arg(box):
@@ -75,7 +96,19 @@ def _call(w, pt, case, force_off=False):
     if case["fill"] is not None:
         kw["fill_value"] = case["fill"]
     r = w(*pt, **kw)
-    return r if isinstance(r, tuple) else (r,)
+    r = r if isinstance(r, tuple) else (r,)
+    nexp = len(case["ab"]) + (1 if (case.get("dup") and case.get("nsteps", 1) > 1 and _is_multi(w)) else 0)
+    if len(r) != nexp:
+        raise ValueError("%d outputs for a WCS with %d world axes" % (len(r), nexp))
+    if nexp > len(case["ab"]):
+        r, same = _undup(case, r)
+        if not same:
+            raise ValueError("the duplicated world axis differs from its source: %r" % (r,))
+    return r
+
+
+def _is_multi(w):
+    return len(w.pipeline) > 2
 
 
 def impl(case):
@@ -135,6 +168,12 @@ def impl(case):
     try:
         r = w(*cols, **kw)
         r = r if isinstance(r, tuple) else (r,)
+        if case.get("dup") and case.get("nsteps", 1) > 1 and _is_multi(w):
+            if len(r) != n + 1:
+                raise ValueError("%d outputs for a WCS with %d world axes" % (len(r), n + 1))
+            r, same = _undup(case, r)
+            if not same:
+                raise ValueError("the duplicated world axis differs from its source")
         res["arr_shapes"] = [list(np.shape(v)) for v in r]
         res["arr"] = [[_cf(v[idx]) for v in r] for idx in np.ndindex(*shape)] if shape else [[_cf(v) for v in r]]
     except Exception as e:
@@ -290,5 +329,10 @@ def gen(rng, tier):
                   8: [[8], [2, 2, 2], [4, 2]], 12: [[12], [3, 4], [2, 3, 2]]}
         wd = dim + rng.choice([-1, 1]) if dim > 1 else 2
         wrong = [[0.0, 1.0 + i] for i in range(wd)]
-        yield {"ab": ab, "box": box, "boxkind": kind, "fill": fill, "withbb": withbb, "pts": pts, "shape": rng.choice(shapes[npts]),
-               "wrong_box": wrong, "has_edge": has_edge, "how": rng.choice(["setter", "setter", "model", "copy"])}
+        case = {"ab": ab, "box": box, "boxkind": kind, "fill": fill, "withbb": withbb, "pts": pts, "shape": rng.choice(shapes[npts]),
+                "wrong_box": wrong, "has_edge": has_edge, "how": rng.choice(["setter", "setter", "model", "copy"])}
+        if case["how"] == "setter" and rng.random() < 0.4:
+            # the same arithmetic as a 2- or 3-step pipeline, optionally with one more world than pixel axes
+            case["nsteps"] = rng.choice([2, 3])
+            case["dup"] = rng.random() < 0.5
+        yield case
